@@ -17,7 +17,7 @@ Judge(e) ==
   LET fz == SetOf(e.frozen)
       K2 == e.move \in {"permute_block_swap", "permute_cluster_charges"}
   IN IF e.parentafter # e.parent \/ e.parentcpafter # ChargePattern(e.parent) THEN "parent-altered"
-     ELSE IF e.st = "exc" THEN (IF e.move \in {"full_shuffle", "swapRandChargeRes"} THEN "move-failed" ELSE OK)
+     ELSE IF e.st = "exc" THEN (IF e.move \in {"full_shuffle", "swapRandChargeRes", "swapRes"} THEN "move-failed" ELSE OK)
      ELSE IF e.st \in {"budget", "self"} THEN OK
      ELSE IF ~Rearrangement(e.parent, e.child) THEN "not-a-rearrangement"
      ELSE IF ~K2 /\ ~FrozenKept(e.parent, e.child, fz) THEN "frozen-position-changed"
